@@ -627,13 +627,17 @@ def http_validate(ctx, events, label):
     """One segment per case so that every failing case is reported with its own signature."""
     segs = []
     for e in events:
-        if e.get("ev") in ("ReqCase", "RespCase", "CutCase", "IdCase", "ProcExit"):
+        if e.get("ev") in ("ReqCase", "RespCase", "CutCase", "IdCase", "SessShim", "ProcExit"):
             segs.append([{"ev": "Reset", "seg": e.get("case", "proc"), "sig": e.get("sig", "proc-exit")}, e])
     fails = validate_segments(ctx, "HttpMsgTrace", "HttpMsgTrace.cfg", segs, batch=400)
     for seg, idx, out, inv in fails:
         e = seg[1]
         if e.get("ev") == "ProcExit":
             report_failure(ctx, "%s:proc-exit:%s" % (label, e.get("report")), "process %s exited (%s) while serving case %s" % (e.get("proc"), e.get("report"), e.get("sig")), seg=seg)
+            continue
+        if e.get("ev") == "SessShim":
+            report_failure(ctx, e.get("sig", label), "%s: %s - a websocket opened through the shim inside a session must carry the session's backend cookies for its path and the client's own, never the session cookie" % (
+                e.get("sig"), json.dumps({k: v for k, v in e.items() if k not in ("pid", "seq", "src", "ev", "sig", "case")}, sort_keys=True)), seg=seg, tlc_out=out[-3000:])
             continue
         what = "%s case %s: sent %s / observed %s violates the reference semantics of HttpMsg" % (
             label, e.get("sig"), json.dumps(e.get("in", {k: e[k] for k in e if k.startswith(("sent", "assert", "fwd", "strip"))}), sort_keys=True)[:500],
@@ -969,6 +973,18 @@ def c10(ctx):
     go_build_harness(ctx)
     go_build_harness(ctx, out="vdrive-race", race=True)
     events, _ = drive(ctx, "sessions", cases=cpath, timeout=3000)
+    # session tracking in the agent's own handler chain, together with the websocket shim (agent binary behind a fake
+    # proxy, websocket backend): one scenario per combination of the identity flags, judged by HttpMsgTrace.TSessShim
+    go_build_repo(ctx, "./agent", "agent")
+    idc = []
+    for i, (fwd, strip) in enumerate([(False, False), (True, False), (False, True), (True, True)]):
+        idc.append({"N": i + 1, "Fwd": fwd, "Strip": strip, "Shim": True, "Sessions": True, "Forged": "none", "Auth": "none", "Kind": "get", "Asserted": "email"})
+    ipath = os.path.join(ctx.scratch, "id_cases_sessions_shim.json")
+    json.dump({"id": idc}, open(ipath, "w"))
+    iev, _ = drive(ctx, "identity", cases=ipath, timeout=600)
+    isegs, ifails = http_validate(ctx, [e for e in iev if e.get("ev") in ("SessShim", "ProcExit")], "sessions+shim")
+    if not any(e.get("ev") == "SessShim" for e in iev):
+        raise Inconclusive("the sessions + shim scenario did not run")
     segs = split_segments(events)
     fails = validate_segments(ctx, "SessionsTrace", "SessionsTrace.cfg", segs, batch=150)
     for seg, idx, out, inv in fails:
